@@ -192,6 +192,19 @@ macro_rules! pumpkin_assert_simple { ($cond:expr $(, $($arg:tt)*)?) => { assert!
 
 verus! {
 pub mod lemmas { use vstd::prelude::*;
+
+pub broadcast proof fn lemma_mul_upper(x: int, y: int, xm: int, ym: int)
+    requires 0 <= x <= xm, 0 <= y <= ym
+    ensures #![trigger x * y, xm * ym] x * y <= xm * ym
+{
+    assert(x * y <= xm * ym) by(nonlinear_arith) requires 0 <= x <= xm, 0 <= y <= ym;
+}
+pub broadcast proof fn lemma_mul_lower(x: int, y: int, xm: int, ym: int)
+    requires 0 <= xm <= x, 0 <= ym <= y
+    ensures #![trigger x * y, xm * ym] x * y >= xm * ym
+{
+    assert(x * y >= xm * ym) by(nonlinear_arith) requires 0 <= xm <= x, 0 <= ym <= y;
+}
 pub broadcast proof fn lemma_mul_sign(x: int, y: int)
     ensures
         #![trigger x * y]
@@ -209,7 +222,7 @@ pub broadcast proof fn lemma_mul_sign(x: int, y: int)
       && (x >= 1 && y >= 1 ==> x * y >= 1) && (x <= -1 && y <= -1 ==> x * y >= 1) && (x >= 1 && y <= -1 ==> x * y <= -1) && (x <= -1 && y >= 1 ==> x * y <= -1) && (x == 0 || y == 0 ==> x * y == 0)) by(nonlinear_arith);
 }
 }
-broadcast use lemmas::lemma_mul_sign;
+broadcast use {lemmas::lemma_mul_sign, lemmas::lemma_mul_upper, lemmas::lemma_mul_lower};
 fn propagate_signs<VA: IntegerVariable, VB: IntegerVariable, VC: IntegerVariable>(
     context: &mut PropagationContextMut,
     a: &VA,
